@@ -267,6 +267,32 @@ def check_length_prefixes(ctx, rule, funcs):
             okl = (lm is not None and U(lm[0]) == U(X)) or U(resolve_local(larg, defs, s.call.lineno)) == U(resolve_local(fld.sym, defs, s.call.lineno))
             ctx.ob(rule, f, desc + ' prefix ' + U(larg), okl,
                    'length prefix %s is not the count %s of the payload' % (U(larg), U(fld.sym)), why)
+    # concatenated form:  pack('<..>h', ..., n) + payload   (the last packed field is the length of the bytes appended to it)
+    for node in ast.walk(f.node):
+      if not (isinstance(node, ast.BinOp) and isinstance(node.op, ast.Add) and isinstance(node.left, ast.Call) and (dotted(node.left.func) or '').split('.')[-1] == 'pack'):
+        continue
+      call = node.left
+      fmt = parse_format(call.args[0]) if call.args else None
+      if fmt is None or not fmt.fields or fmt.fields[-1].code not in 'hHiIqQbB' or len(call.args) < 2:
+        continue
+      if not isinstance(node.right, (ast.Name, ast.Attribute)):
+        continue
+      n_inst += 1
+      payload, larg = node.right, call.args[-1]
+      desc = 'pack(%s) + %s: length prefix %s' % (U(call.args[0]), U(payload), U(larg))
+      why = ('the declared length must be the length of the bytes that follow (non-ASCII text: character count != utf-8 byte count)')
+      m = length_expr_of(larg, defs, call.lineno)
+      if m is None:
+        ctx.ob(rule, f, desc, False, 'prefix %s is not len(<payload>)' % U(larg), why)
+        continue
+      X, xline = m
+      ok = same_value(X, payload, defs, call.lineno)
+      if ok and isinstance(X, ast.Name):
+        ok = def_line(defs, X.id, xline + 0) == def_line(defs, X.id, call.lineno) or xline == call.lineno
+      kind = static_kind(payload, defs, call.lineno, prog, f.module, f.cls)
+      if ok and kind == 'str':
+        ok = False
+      ctx.ob(rule, f, desc, ok, 'measured %s but appends %s (%s)' % (U(X), U(payload), kind), why)
   return n_inst
 
 
